@@ -130,9 +130,11 @@ Definition parse_chunk_value (ctype : Z) (v : bits) : res (list field) :=
     let ngap := sl v 64 80 in
     let ndup := sl v 80 96 in
     let hd := [FD P_SCTP 24 0 (sl v 0 32); FD P_SCTP 25 0 (sl v 32 64); FD P_SCTP 26 0 ngap; FD P_SCTP 27 0 ndup] in
-    let '(fs1, rem1) := sack_gaps (Z.to_nat (Z_of_bits ngap)) (sl_from v 96) hd in
-    let '(fs2, rem2) := sack_dups (Z.to_nat (Z_of_bits ndup)) rem1 fs1 in
-    if 0 <? zlen rem2 then Exc ParserError else Ok fs2
+    if negb (zlen (sl_from v 96) =? 32 * (Z_of_bits ngap + Z_of_bits ndup)) then Exc ParserError
+    else
+      let '(fs1, rem1) := sack_gaps (Z.to_nat (Z_of_bits ngap)) (sl_from v 96) hd in
+      let '(fs2, rem2) := sack_dups (Z.to_nat (Z_of_bits ndup)) rem1 fs1 in
+      Ok fs2
   else if (ctype =? 4) || (ctype =? 5) || (ctype =? 6) || (ctype =? 9) then parse_parameters v []
   else if ctype =? 7 then
     if 32 <? zlen v then Exc ParserError else Ok [FD P_SCTP 31 0 (sl v 0 32)]
